@@ -271,6 +271,10 @@ func genC04(t *rapid.T) *Bundle {
 	big := rapid.IntRange(0, 24).Draw(t, "big_table") == 0
 	if big {
 		n := rapid.IntRange(66, 140).Draw(t, "big_n")
+		if rapid.IntRange(0, 2).Draw(t, "huge") == 0 {
+			// beyond the batch sizes a bounded pool is likely to be given (128, 256): a second batch starts
+			n = rapid.IntRange(258, 330).Draw(t, "huge_n")
+		}
 		side, names := "l", lnames
 		if rapid.Bool().Draw(t, "big_right") {
 			side, names = "r", rnames
